@@ -59,7 +59,7 @@ structure Cfg where
   retryOnError : Bool
   retryOnTimeout : Bool
   sleepTime : Rat
-deriving Repr
+deriving Repr, DecidableEq
 
 /-- sys.maxsize on CPython 64 bit -/
 def sysMaxsize : Nat := 9223372036854775807
@@ -231,5 +231,45 @@ deriving Repr
 
 def retryCluster (p : Params) (atts : List ClusterAttempt) : Run :=
   retry p (atts.map (fun a => bodyOutcome a.answers a.value))
+
+/-! ### several invocations in flight on one registered runner (clients of a worker share the runner object)
+
+Small-step view of `Retry.__call__`: an invocation in flight is its own configuration (read from its own params
+when it started), its own iteration counter and what is left of its own delegate script.  There is no state on the
+`Retry` object.  A scheduler interleaves the steps of the invocations in any order (`asyncio` switches between them
+whenever one of them sleeps between attempts). -/
+
+structure InFlight where
+  cfg : Cfg
+  attempt : Nat
+  rest : List Outcome
+  trace : List Ev
+  res : Option Res          -- `none` while in flight
+deriving Repr, DecidableEq
+
+def startInv (p : Params) (outs : List Outcome) : InFlight := ⟨cfg p, 0, outs, [], none⟩
+
+/-- one scheduling quantum of an invocation: the next attempt up to and including the pause that follows it -/
+def stepInv (v : InFlight) : InFlight :=
+  match v.res with
+  | some _ => v
+  | none =>
+    if v.attempt ≥ v.cfg.maxAttempts then { v with res := some .fellThrough } else
+    match v.rest with
+    | [] => { v with res := some .pending }
+    | o :: rest =>
+      match classify v.cfg (v.attempt + 1 == v.cfg.maxAttempts) o.kind with
+      | .ret => { v with rest := rest, trace := v.trace ++ [.call], res := some (.returned o) }
+      | .raise => { v with rest := rest, trace := v.trace ++ [.call], res := some (.raised o) }
+      | .retrySleep => { v with rest := rest, trace := v.trace ++ [.call, .sleep v.cfg.sleepTime], attempt := v.attempt + 1 }
+
+/-- `n` quanta of one invocation -/
+def runQuanta : Nat → InFlight → InFlight
+  | 0, v => v
+  | n + 1, v => runQuanta n (stepInv v)
+
+/-- a schedule names, quantum after quantum, the invocation that runs next -/
+def runSchedule (sched : List Nat) (invs : List InFlight) : List InFlight :=
+  sched.foldl (fun st i => st.modify i stepInv) invs
 
 end Retry
